@@ -907,7 +907,7 @@ def broadcast_and_apply(  # noqa: C901
                         nextinputs.append(x)
 
                 maxlen = max(
-                    [len(x) for x in nextinputs if isinstance(x, ak.layout.Content)]
+                    [len(x) for x in inputs if isinstance(x, ak.layout.Content)]
                 )
                 outcontent = apply(nextinputs, depth + 1, user)
                 assert isinstance(outcontent, tuple)
